@@ -5,9 +5,9 @@ package world
 
 import (
 	"bytes"
-	"encoding/json"
 	"fmt"
 	"io"
+	"net"
 	"net/http"
 	"net/http/httptest"
 	"os"
@@ -23,6 +23,7 @@ import (
 	"Havoc/pkg/handlers"
 	"Havoc/pkg/logger"
 	"Havoc/pkg/logr"
+	"Havoc/pkg/packager"
 	"Havoc/pkg/profile"
 	"Havoc/pkg/service"
 
@@ -119,69 +120,81 @@ func New(parent string, opt Options) (*World, error) {
 	return w, nil
 }
 
-// Restart stops this teamserver (its database is closed) and starts a new one on the same database file, as a new run with
-// a loot tree of its own.  Listeners and sessions come back the way Teamserver.Start brings them back (that code is inline
-// in Start, which also runs the operator endpoint; the few lines are mirrored here: DB.ListenerAll -> ListenerStart,
-// DB.AgentAll -> AgentAdd, ParentOf / LinksOf -> Pivots, AgentSendNotify).
+// Restart stops this teamserver (its database is closed) and starts a new one on the same database file with the real
+// Teamserver.Start - a new run with a loot tree of its own; listeners and sessions are brought back by Start itself.
+// Start also opens the operator endpoint (TLS on a loopback port of this process' private range) and never returns; the
+// old run's goroutines are left behind like those of a killed process would be gone.
 func (w *World) Restart() error {
 	old := w.TS
 	if old.DB != nil {
 		old.DB.VerifClose()
 	}
 	w.Runs++
-	ts := server.NewTeamserver(filepath.Join(w.Dir, "data", "ts.db"))
+	// Start works in the current directory: it opens the database again under the path it is given, relative to it, and
+	// writes data/server.cert and data/server.key
+	cwd, err := os.Getwd()
+	if err != nil {
+		return err
+	}
+	if err := os.Chdir(w.Dir); err != nil {
+		return err
+	}
+	defer os.Chdir(cwd)
+	ts := server.NewTeamserver(filepath.Join("data", "ts.db"))
 	if ts == nil {
 		return fmt.Errorf("NewTeamserver failed on restart")
 	}
 	ts.Flags.Server.SendLogs = old.Flags.Server.SendLogs
+	ts.Flags.Server.Host = "127.0.0.1"
+	ts.Flags.Server.Port = RestartPort()
 	ts.Profile = old.Profile
 	ts.Server.Path = w.Dir
-	ts.Server.Engine = gin.New()
 	w.Loot = filepath.Join(w.Dir, "data", fmt.Sprintf("loot-run%d", w.Runs))
 	logr.LogrInstance = logr.NewLogr(w.Dir, w.Loot)
 	if logr.LogrInstance == nil {
 		return fmt.Errorf("NewLogr failed on restart")
 	}
 	w.TS = ts
-	for _, l := range ts.DB.ListenerAll() {
-		if l["Protocol"] != handlers.AGENT_EXTERNAL {
-			continue
+	go ts.Start()
+	// the last thing Start does before it parks is to retain the profile event
+	ok := false
+	for end := time.Now().Add(60 * time.Second); time.Now().Before(end) && !ok; time.Sleep(5 * time.Millisecond) {
+		for _, ev := range ts.EventsList {
+			if ev.Head.Event == packager.Type.InitConnection.Type && ev.Body.SubEvent == packager.Type.InitConnection.Profile {
+				ok = true
+			}
 		}
-		data := map[string]any{}
-		if err := json.Unmarshal([]byte(l["Config"]), &data); err != nil {
-			continue
+	}
+	if !ok {
+		return fmt.Errorf("Start did not finish restoring")
+	}
+	// Start generates the operator endpoint's certificate on the side and ends the process when it cannot write it or
+	// cannot listen: the run's directory must stay until that endpoint is up
+	up := false
+	for end := time.Now().Add(60 * time.Second); time.Now().Before(end) && !up; time.Sleep(5 * time.Millisecond) {
+		if c, err := net.DialTimeout("tcp", "127.0.0.1:"+ts.Flags.Server.Port, 200*time.Millisecond); err == nil {
+			c.Close()
+			up = true
 		}
-		ep, _ := data["Endpoint"].(string)
-		if err := ts.ListenerStart(handlers.LISTENER_EXTERNAL, handlers.ExternalConfig{Name: l["Name"], Endpoint: ep}); err != nil && err.Error() != "listener already exists" {
-			return err
-		}
+	}
+	if !up {
+		return fmt.Errorf("the restarted teamserver's operator endpoint did not come up")
 	}
 	w.Ext = nil
 	for _, l := range ts.Listeners {
-		if e, ok := l.Config.(*handlers.External); ok && l.Name == "ext" {
+		if e, isExt := l.Config.(*handlers.External); isExt && l.Name == "ext" {
 			w.Ext = e
 		}
 	}
 	if w.Ext == nil {
 		return fmt.Errorf("external listener not restored")
 	}
-	agents := ts.DB.AgentAll()
-	for _, a := range agents {
-		ts.AgentAdd(a)
-	}
-	for _, a := range agents {
-		if parentID, err := ts.ParentOf(a); err == nil {
-			a.Pivots.Parent = ts.AgentInstance(parentID)
-		}
-		for _, id := range ts.LinksOf(a) {
-			a.Pivots.Links = append(a.Pivots.Links, ts.AgentInstance(id))
-		}
-	}
-	for _, a := range agents {
-		ts.AgentSendNotify(a)
-	}
 	return nil
 }
+
+// RestartPort yields the port for the operator endpoint of a restarted teamserver (set by the drive package: a port of
+// this process' private range)
+var RestartPort = func() string { return "0" }
 
 func (w *World) Close() {
 	if w.TS != nil && w.TS.DB != nil {
